@@ -208,7 +208,7 @@ def strat_history(draw, tier):
 
 
 def strat_walk(tier):
-    return scen.pyramid_cases(4 if tier == "quick" else 6)
+    return scen.pyramid_cases(4 if tier == "quick" else 6, deep_one_in=10)
 
 
 # exhaustive sub-space: every canonical filter of a depth-2 pyramid, k=2, 4 adversarial schedule families
